@@ -1,11 +1,16 @@
 (* C19 — yaw/heading conversions are mutually inverse and range-normalised.
    Property theorems only; each is closed by [exact <lemma>] and followed by Print Assumptions.
    Part 1: the exact SPEC over the rationals (every finite binary64 is a rational).  H is the half turn in the
-   unit used (180 for degrees; the radian variants are the same functions at H = pi).
-   Part 2: the binary64 MODEL of the code. *)
-From Coq Require Import ZArith QArith PrimFloat.
-From FEC Require Import Models.HeadingM Proofs.HeadingMP Models.HeadingF Proofs.HeadingFP.
+           unit used (180 for degrees; the radian variants are the same functions at H = pi).
+   Part 2: the binary64 MODEL of the repaired code (Models/HeadingF.v): range for ALL finite inputs, congruence
+           to (quarter turn - x) up to explicit rounding terms for ALL finite inputs, and MODEL-vs-SPEC.
+           FR f is the real value of the float f (Flocq's B2R (Prim2B f)); u is Flocq's ulp for binary64. *)
+From Coq Require Import ZArith QArith Qreals Reals Floats SpecFloat Lra.
+From Flocq Require Import Core.Zaux Core.Raux Core.Defs Core.Generic_fmt Core.Ulp IEEE754.BinarySingleNaN IEEE754.PrimFloat.
+From FEC Require Import Generated.HeadingConsts Models.HeadingM Proofs.HeadingMP Models.HeadingF Proofs.HeadingFP Proofs.HeadingLinkP Proofs.HeadingInvP.
 Open Scope Q_scope.
+
+(* ------------------------------- Part 1: exact SPEC ------------------------------- *)
 
 (* heading lies in [0, 360), yaw in [-180, 180) — for any unit. *)
 Theorem C19_heading_range : forall H y, 0 < H -> 0 <= Heading_heading H y /\ Heading_heading H y < 2 * H.
@@ -64,12 +69,111 @@ Example C19_nonvacuous :
   Heading_yaw 180 (Heading_heading 180 (-(180))) == -(180).
 Proof. vm_compute. repeat split. Qed.
 
-(* ---------------- binary64 model ---------------- *)
+(* ------------------------------- Part 2: binary64 MODEL ------------------------------- *)
+Close Scope Q_scope.
+Local Notation u := (ulp radix2 (fexp prec emax)).
 
-(* What the pre-fix code computed (the record of the finding that led to the fix), and the repaired code. *)
+(* C fmod as modelled (Heading_fmod) is exact: for finite a and finite b > 0 the result is finite, equals
+   a - n*b for an integer n, has the sign of a and magnitude below b (and not above |a|). *)
+Theorem C19_fmod_exact : forall a b, fin a -> fin b -> (0 < FR b)%R ->
+  let r := Heading_fmod a b in
+  fin r /\ (Rabs (FR r) < FR b)%R /\ ((0 <= FR a)%R -> (0 <= FR r)%R) /\ ((FR a <= 0)%R -> (FR r <= 0)%R) /\
+  (exists n : Z, FR r = (FR a - IZR n * FR b)%R) /\ (Rabs (FR r) <= Rabs (FR a))%R.
+Proof. exact fmod_R. Qed.
+Print Assumptions C19_fmod_exact.
+
+Example C19_nonvacuous_fmod :
+  fin (-30)%float /\ fin 360%float /\ (0 < FR 360%float)%R /\
+  Heading_show (Heading_fmod (-30) 360) = Heading_show (-30)%float /\       (* sign of the dividend *)
+  Heading_show (Heading_fmod 725.5 360) = Heading_show 5.5%float /\
+  Heading_show (Heading_fmod (-720) 360) = Heading_show (-0)%float.
+Proof. repeat split; try reflexivity. rewrite FR_360. lra. Qed.
+
+(* RANGE, for every finite binary64 input (no magnitude bound): the result is finite and lies in the half-open range,
+   stated with the primitive float comparisons. *)
+Theorem C19_heading_range_f : forall x, PrimFloat.is_finite x = true ->
+  PrimFloat.is_finite (Heading_y2h_deg x) = true /\ (0 <=? Heading_y2h_deg x)%float = true /\ (Heading_y2h_deg x <? 360)%float = true.
+Proof. exact heading_range_deg_f. Qed.
+Print Assumptions C19_heading_range_f.
+Theorem C19_yaw_range_f : forall x, PrimFloat.is_finite x = true ->
+  PrimFloat.is_finite (Heading_h2y_deg x) = true /\ (-180 <=? Heading_h2y_deg x)%float = true /\ (Heading_h2y_deg x <? 180)%float = true.
+Proof. exact yaw_range_deg_f. Qed.
+Print Assumptions C19_yaw_range_f.
+(* radians: [0, 2*math.pi) and [-math.pi, math.pi) with the binary64 constants of the source; since the binary64
+   math.pi is below pi these are inside [0, 2 pi) and [-pi, pi). *)
+Theorem C19_heading_range_rad_f : forall x, PrimFloat.is_finite x = true ->
+  PrimFloat.is_finite (Heading_y2h_rad x) = true /\ (0 <=? Heading_y2h_rad x)%float = true /\ (Heading_y2h_rad x <? 2 * Heading_pi)%float = true.
+Proof. exact heading_range_rad_f. Qed.
+Print Assumptions C19_heading_range_rad_f.
+Theorem C19_yaw_range_rad_f : forall x, PrimFloat.is_finite x = true ->
+  PrimFloat.is_finite (Heading_h2y_rad x) = true /\ (- Heading_pi <=? Heading_h2y_rad x)%float = true /\ (Heading_h2y_rad x <? Heading_pi)%float = true.
+Proof. exact yaw_range_rad_f. Qed.
+Print Assumptions C19_yaw_range_rad_f.
+
+(* CONGRUENCE up to rounding, for every finite input: the result differs from 90 - x by a whole number of turns
+   plus at most the rounding error of the subtraction 90.0 - x (half an ulp of 90 - x) and of the additions. *)
+Theorem C19_heading_congruent_f : forall x, PrimFloat.is_finite x = true ->
+  exists n : Z, (Rabs (FR (Heading_y2h_deg x) - (90 - FR x) - 360 * IZR n) <= / 2 * u (90 - FR x) + bpow radix2 (-44))%R.
+Proof. exact heading_close_deg_f. Qed.
+Print Assumptions C19_heading_congruent_f.
+Theorem C19_yaw_congruent_f : forall x, PrimFloat.is_finite x = true ->
+  exists n : Z, (Rabs (FR (Heading_h2y_deg x) - (90 - FR x) - 360 * IZR n) <=
+     / 2 * u (90 - FR x) + / 2 * u (FR (90 - x)%float + 180) + bpow radix2 (-44) + bpow radix2 (-45))%R.
+Proof. exact yaw_close_deg_f. Qed.
+Print Assumptions C19_yaw_congruent_f.
+Theorem C19_heading_congruent_rad_f : forall x, PrimFloat.is_finite x = true ->
+  exists n : Z, (Rabs (FR (Heading_y2h_rad x) - (FR (Heading_pi / 2)%float - FR x) - IZR n * FR (2 * Heading_pi)%float) <=
+     / 2 * u (FR (Heading_pi / 2)%float - FR x) + / 2 * u (FR (2 * Heading_pi)%float + FR (2 * Heading_pi)%float))%R.
+Proof. exact heading_close_rad_f. Qed.
+Print Assumptions C19_heading_congruent_rad_f.
+Theorem C19_yaw_congruent_rad_f : forall x, PrimFloat.is_finite x = true ->
+  exists n : Z, (Rabs (FR (Heading_h2y_rad x) - (FR (Heading_pi / 2)%float - FR x) - IZR n * FR (2 * Heading_pi)%float) <=
+     / 2 * u (FR (Heading_pi / 2)%float - FR x) + / 2 * u (FR (Heading_pi / 2 - x)%float + FR Heading_pi)
+     + / 2 * u (FR (2 * Heading_pi)%float + FR (2 * Heading_pi)%float) + / 2 * u (FR (2 * Heading_pi)%float))%R.
+Proof. exact yaw_close_rad_f. Qed.
+Print Assumptions C19_yaw_congruent_rad_f.
+
+(* INVERSE up to a full turn on the binary64 model (degrees), for every finite input: composing the two conversions
+   returns the input modulo 360 up to the rounding of the first subtraction(s) and 2^-41. *)
+Theorem C19_heading_yaw_inverse_f : forall x, PrimFloat.is_finite x = true ->
+  (exists n : Z, (Rabs (FR (Heading_h2y_deg (Heading_y2h_deg x)) - FR x - 360 * IZR n) <= / 2 * u (90 - FR x) + bpow radix2 (-41))%R) /\
+  (exists n : Z, (Rabs (FR (Heading_y2h_deg (Heading_h2y_deg x)) - FR x - 360 * IZR n)
+                  <= / 2 * u (90 - FR x) + / 2 * u (FR (90 - x)%float + 180) + bpow radix2 (-41))%R).
+Proof. exact (fun x Fx => conj (yaw_heading_inverse_deg_f x Fx) (heading_yaw_inverse_deg_f x Fx)). Qed.
+Print Assumptions C19_heading_yaw_inverse_f.
+
+(* MODEL vs SPEC (degrees): with Heading_F2Q x the exact rational value of the input, the model's result and the
+   exact SPEC's result differ by a whole number of turns plus the same rounding terms. *)
+Theorem C19_model_vs_spec_heading : forall x, PrimFloat.is_finite x = true ->
+  exists n : Z, (Rabs (FR (Heading_y2h_deg x) - Q2R (Heading_heading_deg (Heading_F2Q x)) - 360 * IZR n)
+                <= / 2 * u (90 - FR x) + bpow radix2 (-44))%R.
+Proof. exact heading_model_vs_spec_deg. Qed.
+Print Assumptions C19_model_vs_spec_heading.
+Theorem C19_model_vs_spec_yaw : forall x, PrimFloat.is_finite x = true ->
+  exists n : Z, (Rabs (FR (Heading_h2y_deg x) - Q2R (Heading_yaw_deg (Heading_F2Q x)) - 360 * IZR n)
+                <= / 2 * u (90 - FR x) + / 2 * u (FR (90 - x)%float + 180) + bpow radix2 (-44) + bpow radix2 (-45))%R.
+Proof. exact yaw_model_vs_spec_deg. Qed.
+Print Assumptions C19_model_vs_spec_yaw.
+Theorem C19_F2Q_is_value : forall f, Q2R (Heading_F2Q f) = FR f.
+Proof. exact Q2R_F2Q. Qed.
+Print Assumptions C19_F2Q_is_value.
+
+(* Non-vacuity of the binary64 theorems: finite inputs exist, including the corner case where
+   90.0 - x is a tiny negative number and tiny + 360.0 rounds to exactly 360.0 (x = nextafter(90, +inf)). *)
+Example C19_nonvacuous_f :
+  PrimFloat.is_finite 300 = true /\ PrimFloat.is_finite 0x1.6800000000001p+6 = true /\
+  Heading_show (Heading_y2h_deg 0) = Heading_show 90%float /\
+  Heading_show (Heading_y2h_deg 300) = Heading_show 150%float /\
+  Heading_show (Heading_h2y_deg 300) = Heading_show 150%float /\
+  Heading_show (Heading_fmod (90 - 0x1.6800000000001p+6) 360 + 360)%float = Heading_show 360%float /\
+  Heading_show (Heading_y2h_deg 0x1.6800000000001p+6) = Heading_show 0%float.
+Proof. exact (conj eq_refl (conj eq_refl repaired_values)). Qed.
+
+(* What the pre-fix code computed (the record of the finding that led to the fix). *)
 Theorem C19_legacy_refuted :
-  Heading_show (Heading_y2h_deg_legacy 0) = Heading_show 270%float /\
-  Heading_show (Heading_y2h_deg_legacy 300) = Heading_show (-30)%float /\
-  Heading_show (Heading_h2y_deg_legacy 300) = Heading_show (-210)%float.
-Proof. exact legacy_values. Qed.
+  (Heading_show (Heading_y2h_deg_legacy 0) = Heading_show 270%float /\
+   Heading_show (Heading_y2h_deg_legacy 300) = Heading_show (-30)%float /\
+   Heading_show (Heading_h2y_deg_legacy 300) = Heading_show (-210)%float) /\
+  ((0 <=? Heading_y2h_deg_legacy 300)%float = false /\ (-180 <=? Heading_h2y_deg_legacy 300)%float = false).
+Proof. exact (conj legacy_values legacy_out_of_range). Qed.
 Print Assumptions C19_legacy_refuted.
